@@ -138,11 +138,19 @@ def gen(seed, run, tier='quick'):
         p/10^j/um in [0.01, 500], so that every cross rate and inverse
         stays far above the 0.000001 limit of ExchangeRate."""
         while True:
-            p = rng.choice(primes)
+            if rng.random() < 0.5:
+                p = rng.choice(primes)
+            else:
+                # more digits than an exchange rate keeps (6 decimals at
+                # its unit multiple): rounding happens once, at storage
+                p = rng.randrange(10 ** 5, 10 ** 9)
+                if p % 10 == 0:
+                    continue
             if p in used_primes:
                 continue
             t = rng.choice(['dec', 'dec', 'frac', 'str', 'float', 'int'])
-            j = 0 if t == 'int' else rng.choice([0, 1, 2, 2, 3, 4])
+            j = 0 if t == 'int' else rng.choice([0, 1, 2, 2, 3, 4, 5, 6, 7,
+                                                 8])
             if 0.01 <= p / 10 ** j / um <= 500:
                 used_primes.add(p)
                 break
